@@ -509,6 +509,13 @@ func cmdCheck(args []string) int {
 		ok, how, out := true, "not-replayed", ""
 		if !*noReplay {
 			replays++
+			// findings of the engine's own monitors (lock recorder, thread
+			// model, unwinding) are not observable by a native run of the
+			// harness: they replay in the engine's concrete mode
+			switch v.Label {
+			case "locks-held-at-exit", "self-deadlock", "recursive-read-lock", "deadlock", "data-race", "lockset", "unwind":
+				native = false
+			}
 			if native {
 				ok, out = nativeReplay(v, path)
 				how = "native"
